@@ -17,6 +17,7 @@ import (
 type KnownFinding struct {
 	Property   string
 	Obligation string // exact obligation name
+	Demo       string // "pkgdir|file under /verif/findings|TestName": a demonstration on the real code (run in the thorough tier; it fails while the defect is present)
 	Scope      bool   // not a finding of this property: an input class outside the claim (the deviation is recorded under another property)
 	LaneWhen   string // optional per-lane input class (vector handlers): lanes inside it are exempt from the clauses
 	When       string // optional input class (spec expression): the finding is known only inside it
@@ -52,6 +53,11 @@ func loadKnownFindings(path string) (known []KnownFinding, fixed []string) {
 			k.What = strings.TrimSpace(parts[1])
 		}
 		head := parts[0]
+		if i := strings.Index(head, "demo={"); i >= 0 {
+			j := strings.Index(head[i:], "}") + i
+			k.Demo = strings.TrimSpace(head[i+6 : j])
+			head = head[:i] + head[j+1:]
+		}
 		if i := strings.Index(head, "lanewhen={"); i >= 0 {
 			j := strings.Index(head[i:], "}") + i
 			k.LaneWhen = strings.TrimSpace(head[i+10 : j])
@@ -263,6 +269,9 @@ func runCheck(o checkOpts) *checkResult {
 	for _, sf := range specs {
 		if strings.HasPrefix(sf.Name, "extern:") {
 			w.externFrames[strings.TrimPrefix(sf.Name, "extern:")] = sf.Reason
+			if sf.Lemma {
+				w.externFresh[strings.TrimPrefix(sf.Name, "extern:")] = true
+			}
 			continue
 		}
 		w.specFns[sf.Name] = sf
@@ -374,12 +383,20 @@ func runCheck(o checkOpts) *checkResult {
 
 	genSecs := time.Since(t0).Seconds() - w.loadSecs
 	ts := time.Now()
+	// obligations recorded as known findings are expected not to discharge: one bounded attempt, no retries
+	for _, ob := range obls {
+		for _, k := range known {
+			if k.matches(o.prop, ob.Name) {
+				ob.expectFail = true
+			}
+		}
+	}
 	solveAll(obls, o.timeout, 12)
 	solveSecs := time.Since(ts).Seconds()
 	// retry undecided once with the thorough timeout before reporting
 	var undec []*Obligation
 	for _, ob := range obls {
-		if ob.Verdict == "undecided" && !ob.WantSat && !ob.Helper {
+		if ob.Verdict == "undecided" && !ob.WantSat && !ob.Helper && !ob.expectFail {
 			undec = append(undec, ob)
 		}
 	}
@@ -425,7 +442,17 @@ func runCheck(o checkOpts) *checkResult {
 					}
 					knownHit[ob.Name] = true
 					rec.Verdict = "known-finding"
-					if o.tier == "thorough" && ob.Verdict == "failed" && ob.Model != "" {
+					if o.tier == "thorough" && k.Demo != "" {
+						if parts := strings.Split(k.Demo, "|"); len(parts) == 3 {
+							src, err := os.ReadFile(filepath.Join(o.verif, "findings", parts[1]))
+							if err == nil {
+								out, _ := runOverlayTestNamed(o, filepath.Join(o.repo, parts[0]), string(src), ob.Name, parts[2])
+								reproduced := strings.Contains(out, "--- FAIL") && !strings.Contains(out, "[build failed]")
+								rec.Note = fmt.Sprintf("known finding demonstrated on the real code (%s fails while the defect is present): reproduced=%v", parts[2], reproduced)
+								knownReplayed = append(knownReplayed, map[string]interface{}{"obligation": ob.Name, "reproduced": reproduced, "demo": k.Demo, "output": trunc(out, 1500)})
+							}
+						}
+					} else if o.tier == "thorough" && ob.Verdict == "failed" && ob.Model != "" {
 						if rp := tryReplay(w, o, ob); rp != nil {
 							rec.Note = fmt.Sprintf("known finding replayed on the real code: reproduced=%v %s", rp.Reproduced, rp.Reason)
 							knownReplayed = append(knownReplayed, map[string]interface{}{"obligation": ob.Name, "reproduced": rp.Reproduced, "reason": rp.Reason, "inputs": rp.Inputs, "observed": rp.Observed})
